@@ -573,8 +573,13 @@ def main(argv=None):
     }
     if hasattr(prop, "extra_evidence"):
         evidence["coverage"].update(prop.extra_evidence(results))
-    os.makedirs(EVIDENCE_DIR, exist_ok=True)
-    with open(os.path.join(EVIDENCE_DIR, "%s.json" % prop_id), "w") as f:
+    # the registered evidence file describes a full-budget run against /repo itself; audit runs (VERIF_REPO pointing at a scratch
+    # copy) and reduced-budget runs (--examples) write next to it instead
+    ev_dir = EVIDENCE_DIR
+    if os.path.realpath(env.REPO) != os.path.realpath("/repo") or args.examples:
+        ev_dir = os.path.join(EVIDENCE_DIR, "scratch")
+    os.makedirs(ev_dir, exist_ok=True)
+    with open(os.path.join(ev_dir, "%s.json" % prop_id), "w") as f:
         f.write(json.dumps(evidence, indent=1, default=_json_default))
 
     if harness_errors:
